@@ -52,7 +52,7 @@ prop(
 
 prop(
     "C02", level="proof", trusted_base=TB_E1, selftest=["algorithms", "series"],
-    rules=[main_e1, e2.rule_product_by_order, e2.rule_adjoint_fill, e2.rule_cauchy_wiring],
+    rules=[main_e1, e2.rule_product_by_order, e2.rule_adjoint_fill, e2.rule_cauchy_wiring, e1b.rule_projection_pairs],
     explanation=(
         "Unitarity (1+U'†)(1+U') = (1+U')(1+U'†) = 1, adj(U) = U†, Hermiticity of U†HU and of every series/product "
         "carrying a hermitian/antihermitian marker are obligations of the E1 certificate of `main`; the Hermitian "
